@@ -62,15 +62,21 @@ inductive Key where
   | single (s : String)
   deriving DecidableEq, Repr
 
-/-- `Bag._process_object`, collection branch — what is reported for ONE item of a collection attribute:
+/-- `Bag._process_object`, collection branch — what is reported for ONE item of a collection attribute
+    (as of /repo 40bed00):
 
-        if attr.reverse.entity._pk_is_composite_:          # number of pk ATTRIBUTES > 1
+        if len(attr.reverse.entity._pk_columns_) > 1:       # number of pk COLUMNS > 1
             value = sorted(bag._reduce_composite_pk(item._get_raw_pkval_()) for item in value)
         else: value = sorted(item._get_raw_pkval_()[0] for item in value)
 
     `raw` is `_get_raw_pkval_()` (one entry per pk COLUMN: a pk attribute that references an entity with a composite
     key contributes several entries). -/
-def bagCollectionKey (pkAttrs : Nat) (raw : List String) : Option Key :=
+def bagCollectionKey (raw : List String) : Option Key :=
+  if raw.length > 1 then some (.text (reducePk raw)) else raw.head?.map .single
+
+/-- the test BEFORE 40bed00 (`attr.reverse.entity._pk_is_composite_`: number of pk ATTRIBUTES > 1). Kept only to
+    document what the fix repaired; no longer corresponds to any code. -/
+def bagCollectionKeyOld (pkAttrs : Nat) (raw : List String) : Option Key :=
   if pkAttrs > 1 then some (.text (reducePk raw)) else raw.head?.map .single
 
 /-- `Bag.to_dict`, dictionary key of an object: the test is `len(entity._pk_columns_) > 1` (number of pk COLUMNS) -/
